@@ -224,6 +224,10 @@ func Run(r *ev.Run) {
 	r.RequireAtLeast("a_public_keys_seen_in_written_blobs(positive control)", q(100, 2000))
 	r.RequireAtLeast("b_relocations_checked_v1", q(100, 100))
 	r.RequireAtLeast("b_relocations_checked_v2", q(100, 100))
+	r.RequireAtLeast("b_relocations_checked_v1_near_identical_ids", q(200, 200))
+	r.RequireAtLeast("b_relocations_checked_v2_near_identical_ids", q(100, 100))
+	r.RequireSetAtLeast("b_near_identical_id_pairs_v1", len(nearPairs))
+	r.RequireSetAtLeast("b_near_identical_id_pairs_v2", len(nearPairs))
 	r.RequireAtLeast("c_flips_checked_v2", q(3000, 30000))
 	r.RequireAtLeast("c_flips_checked_v1", q(1000, 8000))
 	r.RequireAtLeast("d_hostile_calls_checked_v1", q(100, 100))
